@@ -45,6 +45,24 @@ from vf.core import CaseInfo, Inconclusive, Violation, dhash, jsonable
 from vf import findings as kf
 
 
+def _recurs_in_fresh_process(rec):
+    import subprocess
+
+    base = spec['out'] + '.confirm'
+    with open(base + '.json', 'w') as f:
+        json.dump(rec, f, default=repr)
+    nested = dict(spec, mode='replay', files=[base + '.json'], out=base + '.out', nested=True)
+    try:
+        subprocess.run([sys.executable, '-m', 'vf.shard', json.dumps(nested)], timeout=1800, stdout=subprocess.DEVNULL, stderr=subprocess.DEVNULL)
+        with open(base + '.out') as f:
+            o = json.load(f)
+    except BaseException:
+        return True  # cannot tell: keep the in-process verdict
+    if o.get('fatal') or o.get('harness_errors'):
+        return True
+    return bool(o.get('violations'))
+
+
 def main():
     mod = importlib.import_module('props.' + spec['prop'].lower())
     fam = {f.name: f for f in mod.FAMILIES}[spec['family']]
@@ -151,6 +169,12 @@ def main():
             'signature': last.signature,
             'source': src,
         }
+        if recurred and fam.engine == 'real' and not spec.get('nested'):
+            # real processes: the replay file must reproduce on its own. A failure that only recurs inside this (long-lived)
+            # shard process may come from state of the process itself (a killed resource tracker, exhausted descriptors...)
+            if not _recurs_in_fresh_process(rec):
+                recurred = 0
+                rec['note'] = 'recurred in the shard process but not in a fresh process: not reported'
         if recurred:
             d = os.path.join(os.path.dirname(os.path.dirname(os.path.abspath(__file__))), 'replays', 'found')
             os.makedirs(d, exist_ok=True)
